@@ -25,6 +25,7 @@ type Shared struct {
 	elemsNonNil map[string]bool // heap key of a slice field -> elements non-nil
 	guards      map[string]*guardInfo // heap key of guarded field -> info
 	mutableGlobal map[*ssa.Global]bool
+	mapValsNonNil map[string]bool
 }
 
 type guardInfo struct {
@@ -38,7 +39,7 @@ type guardInfo struct {
 
 func newShared(ld *Loaded, cs *ContractSet) *Shared {
 	sh := &Shared{ld: ld, addrTaken: map[string]bool{}, fileOf: map[*token.File]*ast.File{}, importNames: map[string]map[string]*types.Package{},
-		mayLockMemo: map[*ssa.Function]bool{}, nonNilField: map[string]bool{}, elemsNonNil: map[string]bool{}, guards: map[string]*guardInfo{}}
+		mayLockMemo: map[*ssa.Function]bool{}, nonNilField: map[string]bool{}, elemsNonNil: map[string]bool{}, guards: map[string]*guardInfo{}, mapValsNonNil: map[string]bool{}}
 	seenT := map[*types.Package]bool{}
 	packages.Visit(ld.Pkgs, nil, func(p *packages.Package) {
 		if p.Types != nil && !seenT[p.Types] {
